@@ -174,7 +174,7 @@ ASSUMPTIONS = [
     "no virtual time passes while external events are delivered (Repeat interval 1 h): the "
     "model covers the synchronous pass-through of a Repeat; in 40 % of the runs with a Repeat "
     "two repetitions are let through afterwards, judged by the monitor and the follow-up "
-    "events only; Repeat -> Repeat edges are excluded (suspected defect F1, C18)",
+    "events only; Repeat -> Repeat destination chains are acyclic",
     "in half of the runs a persistent storage is configured and most Input/Counter/FSM blocks "
     "are persistent (state saved after every event); the storage starts empty",
     "OutputFunc is used with f_args=() (its documented precondition: the put data contain all "
@@ -359,8 +359,9 @@ def _gen_edge(rng, blocks, src, dst, trigger, p_unknown, quiet):
 
 def _add_edge(rng, blocks, si, di, p_unknown, quiet):
     src, dst = blocks[si], blocks[di]
-    if src['kind'] == 'repeat' and dst['kind'] == 'repeat':
-        return False        # F1 (C18): Repeat -> Repeat raises TypeError
+    if src['kind'] == 'repeat' and dst['kind'] == 'repeat' and src['dest'] is None \
+            and dst['dest'] is None:
+        return False        # the destination Repeat's event type is not known yet
     if src['kind'] == 'repeat' and src['dest'] is None:
         # the mandatory destination of a Repeat
         ev = _gen_ev(rng, dst, p_unknown)
@@ -389,6 +390,10 @@ def _gen_circuit(rng, tier):
                      and (shape != 'dag' or j > i)]
             if not cands:
                 cands = [j for j in range(n) if blocks[j]['kind'] != 'repeat']
+            done = [j for j in range(i) if blocks[j]['kind'] == 'repeat'
+                    and blocks[j]['dest'] is not None]
+            if done and rng.random() < 0.3:
+                cands = done        # Repeat -> Repeat chain (acyclic: earlier ones only)
             _add_edge(rng, blocks, i, rng.choice(cands), p_unknown, quiet)
     pairs = []
     if shape == 'dag':
@@ -815,7 +820,15 @@ def build(plan, ctx):
                     kw['initdef'] = b['initdef']
                 blk = edzed.Counter(name, modulo=b.get('modulo'), **kw, **common)
             elif kind == 'repeat':
-                if b.get('dest') not in names or kinds[b['dest']] == 'repeat':
+                if b.get('dest') not in names:
+                    raise PlanError('Repeat without a valid destination')
+                seen_rep, cur = {name}, b['dest']
+                while kinds.get(cur) == 'repeat':      # Repeat -> Repeat chains: acyclic only
+                    if cur in seen_rep:
+                        raise PlanError('cyclic Repeat destinations')
+                    seen_rep.add(cur)
+                    cur = next((x.get('dest') for x in plan['blocks'] if x['name'] == cur), None)
+                if cur not in names:
                     raise PlanError('Repeat without a valid destination')
                 blk = edzed.Repeat(name, dest=b['dest'], etype=mk_etype(b['etype']),
                                    interval=REPEAT_INTERVAL, count=b.get('count'), **common)
